@@ -2,6 +2,8 @@ package rules
 
 import (
 	"fmt"
+	"go/ast"
+	"go/token"
 	"go/types"
 	"sort"
 	"strings"
@@ -425,6 +427,88 @@ func (c *Ctx) helperValues() {
 	}
 	run.Floor("helper_values", 27)
 	c.checkStepSpecs([]stepSpec{sinceSpec})
+	c.chanToSliceStartsEmpty()
+}
+
+// chanToSliceStartsEmpty: ChanToSlice returns exactly the received elements: the slice it
+// appends to starts with length 0 (`var s []T`, `[]T{}`, `make([]T, 0, n)`), it grows only by
+// appending the received element, and it is what is returned.
+func (c *Ctx) chanToSliceStartsEmpty() {
+	run := c.Run
+	fi := c.P.Func("helper", "ChanToSlice")
+	if fi == nil {
+		run.Break("anchor missing: helper.ChanToSlice")
+		return
+	}
+	info := fi.Pkg.TypesInfo
+	var ret *ast.Ident
+	ast.Inspect(fi.Decl.Body, func(n ast.Node) bool {
+		if r, ok := n.(*ast.ReturnStmt); ok && len(r.Results) == 1 {
+			ret, _ = r.Results[0].(*ast.Ident)
+		}
+		return true
+	})
+	ok, why := ret != nil, "the result is not a single slice variable"
+	if ok {
+		obj := info.ObjectOf(ret)
+		why = ""
+		ast.Inspect(fi.Decl.Body, func(n ast.Node) bool {
+			switch x := n.(type) {
+			case *ast.ValueSpec:
+				for i, nm := range x.Names {
+					if info.ObjectOf(nm) == obj && i < len(x.Values) && !emptySliceExpr(info, x.Values[i]) {
+						why = "the slice does not start empty: " + exprString(x.Values[i])
+					}
+				}
+			case *ast.AssignStmt:
+				for i, l := range x.Lhs {
+					id, isID := l.(*ast.Ident)
+					if !isID || info.ObjectOf(id) != obj || i >= len(x.Rhs) {
+						continue
+					}
+					if x.Tok == token.DEFINE {
+						if !emptySliceExpr(info, x.Rhs[i]) {
+							why = "the slice does not start empty: " + exprString(x.Rhs[i])
+						}
+						continue
+					}
+					call, isCall := x.Rhs[i].(*ast.CallExpr)
+					good := false
+					if isCall && len(call.Args) == 2 {
+						if f, isF := call.Fun.(*ast.Ident); isF && f.Name == "append" {
+							if a0, isA := call.Args[0].(*ast.Ident); isA && info.ObjectOf(a0) == obj {
+								good = true
+							}
+						}
+					}
+					if !good {
+						why = "the slice is changed other than by appending one received element: " + exprString(x.Rhs[i])
+					}
+				}
+			}
+			return true
+		})
+		ok = why == ""
+	}
+	run.Oblige(ok)
+	if !ok {
+		c.violate("helper-model/len", "helper.ChanToSlice", short(why, 100), fi.Decl.Pos(), "ChanToSlice must return exactly the elements received, in order: "+why)
+	}
+}
+
+func emptySliceExpr(info *types.Info, e ast.Expr) bool {
+	switch x := e.(type) {
+	case *ast.CompositeLit:
+		return len(x.Elts) == 0
+	case *ast.Ident:
+		return x.Name == "nil"
+	case *ast.CallExpr:
+		if f, ok := x.Fun.(*ast.Ident); ok && f.Name == "make" && len(x.Args) >= 2 {
+			v, isC := constInt(info, x.Args[1])
+			return isC && v == 0
+		}
+	}
+	return false
 }
 
 // sinceSpec: helper.Since counts how many elements in a row carried the current value: 0 for the
